@@ -249,6 +249,28 @@ enum Outcome {
     LateFailure,
 }
 
+/// A sink that refuses (by panicking) more output than any legitimate
+/// replacement of the judged stream can produce (replacements are at most 2
+/// bytes long here), so that a replacement loop that never advances becomes
+/// a reported outcome instead of exhausting memory.
+struct CapWriter {
+    n: usize,
+    cap: usize,
+}
+
+impl std::io::Write for CapWriter {
+    fn write(&mut self, buf: &[u8]) -> std::io::Result<usize> {
+        self.n += buf.len();
+        if self.n > self.cap {
+            panic!("stream replacement wrote more bytes than any legitimate output has");
+        }
+        Ok(buf.len())
+    }
+    fn flush(&mut self) -> std::io::Result<()> {
+        Ok(())
+    }
+}
+
 fn takes_input(method: usize) -> bool {
     matches!(method, 0..=4 | 10..=13)
 }
@@ -323,7 +345,12 @@ fn invoke(ac: &AhoCorasick, method: usize, hay: &[u8], hay_str: &str, anchored: 
             9 => {
                 let it = ac.stream_find_iter(hay);
                 late.set(true);
-                for item in it {
+                // a non-overlapping sequence has at most len + 1 items: more
+                // means the iterator does not advance (reported, not a hang)
+                for (k, item) in it.enumerate() {
+                    if k > hay.len() + 8 {
+                        panic!("stream iterator yielded more items than the stream has positions");
+                    }
                     if item.is_err() {
                         return Err(());
                     }
@@ -372,18 +399,21 @@ fn invoke(ac: &AhoCorasick, method: usize, hay: &[u8], hay_str: &str, anchored: 
             18 => {
                 let it = ac.try_stream_find_iter(hay).map_err(|_| ())?;
                 late.set(true);
-                for item in it {
+                for (k, item) in it.enumerate() {
+                    if k > hay.len() + 8 {
+                        panic!("stream iterator yielded more items than the stream has positions");
+                    }
                     if item.is_err() {
                         return Err(());
                     }
                 }
             }
             19 => {
-                let mut out = Vec::new();
+                let mut out = CapWriter { n: 0, cap: (hay.len() + 2) * 4 + 64 };
                 ac.try_stream_replace_all(hay, &mut out, &repl_b).map_err(|_| ())?;
             }
             _ => {
-                let mut out = Vec::new();
+                let mut out = CapWriter { n: 0, cap: (hay.len() + 2) * 4 + 64 };
                 ac.try_stream_replace_all_with(hay, &mut out, |_, _, w| {
                     use std::io::Write;
                     w.write_all(b"r")
@@ -1117,8 +1147,17 @@ fn c20_check(case: &Case, ctx: &mut Ctx) -> Result<(), String> {
     // pattern ids in results are input positions: one model-checked search
     let anchored = !cfg.supports_anchored(false);
     let hay = &case.haystack[..];
-    if hay.len() * lens.iter().sum::<usize>() <= 4_000_000 {
+    if hay.len() * lens.iter().sum::<usize>() <= 4_000_000 || case.sub.starts_with("boundary:") {
         let occ = Occ::new(pats, hay, cfg.casei);
+        // standard kind: the overlapping sequence as well (it walks whole match lists)
+        if cfg.mk == Mk::Standard {
+            let want = occ.overlapping(0, hay.len(), anchored);
+            let got = guard(|| s.overlapping_steps(input(hay, (0, hay.len()), anchored, false), 1, 10_000)).map_err(|p| format!("overlapping steps panicked: {}", p))?.map_err(|e| format!("overlapping steps: Err({})", e))?;
+            if got != want {
+                let k = got.iter().zip(want.iter()).take_while(|(a, b)| a == b).count();
+                return Err(format!("overlapping steps after build differ from the model at index {}: expected {:?}, got {:?}", k, want.get(k), got.get(k)));
+            }
+        }
         let want = occ.iter(cfg.mk, 0, hay.len(), anchored);
         let got = guard(|| s.try_find_iter(input(hay, (0, hay.len()), anchored, false))).map_err(|p| format!("find_iter panicked: {}", p))?.map_err(|e| format!("find_iter: Err({})", e))?;
         if got != want {
@@ -1265,6 +1304,76 @@ fn c20_strategy(tier: Tier) -> BoxedStrategy<Case> {
 /// off). Building with an explicitly requested DFA must either report a
 /// build error or return a DFA - never silently hand back another kind.
 fn c20_extra(_tier: Tier, _seed: u64, ctx: &mut Ctx) -> Result<bool, Violation> {
+    // Boundary sizes through the ordinary check (metadata + model-checked
+    // iteration): one pattern of exactly 65535 / 65536 / 65537 bytes next to
+    // a short one, and a list of 65538 patterns whose late three-byte
+    // patterns have early two-byte patterns as suffixes.
+    {
+        let mut tasks: Vec<Case> = Vec::new();
+        for l in [65_535usize, 65_536, 65_537] {
+            let long: Vec<u8> = (0..l as u32).map(|i| b'a' + ((i.wrapping_mul(2654435761) >> 11) % 23) as u8).collect();
+            let mut hay = b"..".to_vec();
+            hay.extend_from_slice(&long);
+            hay.extend_from_slice(b"zq");
+            for engine in [Engine::TopNc, Engine::TopC, Engine::TopDfa, Engine::LowDfa, Engine::LowC] {
+                tasks.push(Case {
+                    prop: "C20".into(),
+                    sub: format!("boundary:pattern-of-{}-bytes", l),
+                    cfg: Cfg { engine, mk: Mk::LeftmostFirst, sk: Sk::Unanchored, prefilter: true, dense_depth: 2, byte_classes: true, casei: false },
+                    patterns: vec![long.clone(), b"zq".to_vec()],
+                    span: (0, hay.len()),
+                    haystack: hay.clone(),
+                    ..Case::default()
+                });
+            }
+        }
+        for engine in [Engine::TopC, Engine::TopDfa, Engine::TopNc] {
+            for mk in [Mk::Standard, Mk::LeftmostLongest] {
+                let hay = b"AB\x00zzAB\x01\xff\xfeAB".to_vec();
+                tasks.push(Case {
+                    prop: "C20".into(),
+                    sub: "boundary:65538-patterns".into(),
+                    cfg: Cfg { engine, mk, sk: Sk::Unanchored, prefilter: true, dense_depth: 2, byte_classes: true, casei: false },
+                    patterns: many_patterns_list(65_538),
+                    span: (0, hay.len()),
+                    haystack: hay,
+                    ..Case::default()
+                });
+            }
+        }
+        let next = std::sync::atomic::AtomicUsize::new(0);
+        let results: Vec<Option<Violation>> = std::thread::scope(|sc| {
+            let hs: Vec<_> = (0..8)
+                .map(|_| {
+                    sc.spawn(|| loop {
+                        let t = next.fetch_add(1, std::sync::atomic::Ordering::Relaxed);
+                        if t >= tasks.len() {
+                            return None;
+                        }
+                        // checked with a scratch context: these cases are too large to keep as evidence samples
+                        let mut scratch = Ctx::default();
+                        let r = guard(|| c20_check(&tasks[t], &mut scratch));
+                        let r = match r {
+                            Ok(r) => r,
+                            Err(p) => Err(format!("panicked: {}", p)),
+                        };
+                        if let Err(reason) = r {
+                            return Some(Violation { case: tasks[t].clone(), reason });
+                        }
+                    })
+                })
+                .collect();
+            hs.into_iter().map(|h| h.join().expect("boundary thread")).collect()
+        });
+        for v in results.into_iter().flatten() {
+            return Err(v);
+        }
+        ctx.evals += tasks.len() as u64;
+        ctx.enumerated += tasks.len() as u64;
+        ctx.count("boundary_size_cases", tasks.len() as u64);
+        ctx.class("boundary:pattern-of-65535/65536/65537-bytes");
+        ctx.class("boundary:65538-patterns");
+    }
     let mut sd = 0x9e3779b97f4a7c15u64;
     let full: Vec<u8> = (0..=255u8).collect();
     let patterns: Vec<Vec<u8>> = (0..2200).map(|_| lcg_bytes(&mut sd, 2000, &full)).collect();
